@@ -77,10 +77,19 @@ def run_histories(jobs):
     config.COMMTIMEOUT = 0.0
     traces = []
 
+    others = []
+
     def main():
         sc = S.CUR
         for jobno, (h, ser) in enumerate(jobs):
             rotate = jobno % 2 == 1
+            for od in others:
+                if od is not None:
+                    try:
+                        od.close()
+                    except Exception:
+                        pass
+            del others[:]
             sc.set_budget(40000)
             tr = []
             d = P.Daemon(host="127.0.0.1")
@@ -99,7 +108,14 @@ def run_histories(jobs):
                 def give(self, k):
                     return objs[k]
             d.register(Helper(), "helper")
+            other = None
+            if jobno % 3 == 1:
+                # another daemon of the same process has an object of the same class; it is closed after this daemon's first
+                # registration: this daemon's objects are none of its business
+                other = P.Daemon(host="127.0.0.1")
+                other.register(Thing(9), "elsewhere")
             daemon_obj = d.objectsById["Pyro.Daemon"]
+            others.append(other)
 
             def kept():
                 return d.objectsById.get("Pyro.Daemon") is daemon_obj
@@ -136,6 +152,9 @@ def run_histories(jobs):
                 base_ser = ser
                 for evno, ev in enumerate(h):
                     a, o, i = ev["a"], ev["o"], ev["id"]
+                    if other is not None and evno > 0 and h[evno - 1]["a"] == "register":
+                        other.close()
+                        other = None
                     # the serializer changes from step to step (what one of them does to an object must not show under another)
                     ser = SERS[(SERS.index(base_ser) + evno) % len(SERS)] if rotate else base_ser
                     if a == "register":
